@@ -128,6 +128,18 @@ void vm_generate(uint64_t seed, unsigned size_class)
 	f = getenv("VM_FORCE_DEST");
 	if(f)
 		VM.dest_mode = atoi(f);
+	f = getenv("VM_STATELESS");
+	if(f && atoi(f) && VM.n_lps >= 3) {
+		for(unsigned i = 1; i < VM.n_lps; i += 3) {
+			if((int)i == VM.sparse_lp)
+				continue;
+			VM.stateless[i] = 1;
+			VM.total_target -= VM.target[i];
+			VM.target[i] = 0;
+		}
+		if(!VM.total_target)
+			VM.total_target = VM.target[0] = 400;
+	}
 	f = getenv("VM_FORCE_LPS");
 	if(f && (unsigned)atoi(f) < VM.n_lps) { /* shrink the model: keep the per-LP targets, drop the other LPs */
 		VM.n_lps = (unsigned)atoi(f);
@@ -150,6 +162,8 @@ void vm_describe(char *buf, size_t n)
 uint64_t vm_digest(lp_id_t me, const struct vm_state *s)
 {
 	uint64_t h = mix64(0xD1CE, me);
+	if(!s) /* stateless LP: nothing the model can observe at the end (its generator keeps running after the others are done) */
+		return h;
 	h = mix64(h, s->count);
 	h = mix64(h, s->acc);
 	h = mix64(h, s->prng);
@@ -170,9 +184,10 @@ uint64_t vm_digest(lp_id_t me, const struct vm_state *s)
 
 bool vm_can_end(lp_id_t me, const void *st)
 {
-	(void)me;
 	const struct vm_state *s = st;
-	return s && s->frozen;
+	if(!s)
+		return VM.stateless[me];
+	return s->frozen;
 }
 
 static void fill_buf(unsigned char *p, uint32_t n, uint64_t pat)
@@ -337,8 +352,30 @@ static double lib_delay(void)
 	return d < 1e-3 ? 1e-3 : d;
 }
 
+static void send_initial_tokens(lp_id_t me)
+{
+	for(unsigned t = 0; t < VM.tokens; ++t) {
+		uint64_t h = mix64(mix64(VM.seed, me), 1000 + t);
+		unsigned char buf[VM_MAXPL];
+		unsigned psz = pick_payload(h >> 28, buf);
+		double ts = VM.init_ts0 ? 0.0 : pick_delay(h >> 20, true) + (VM.ts_mode == 1 ? 0.0 : (double)(h % 2));
+		unsigned dst = (t == 0 && (int)me != VM.sparse_lp) ? (unsigned)me : pick_dest(me, h);
+		unsigned ty = before_current(1.0, TOKEN_BASE + TOKEN_HOPS, NULL, 0, 1.0, TOKEN_BASE, NULL, 0) ? TOKEN_BASE + TOKEN_HOPS : TOKEN_BASE;
+		while(before_current(ts, ty, buf, psz, 0.0, LP_INIT, NULL, 0))
+			ts += 0.25;
+		REF.init_sends += vm_env->is_reference;
+		vm_env->schedule(dst, ts, ty, psz ? buf : NULL, psz);
+	}
+}
+
 void vm_process(lp_id_t me, simtime_t now, unsigned type, const void *pl, unsigned size, void *st)
 {
+	if(type == LP_INIT && VM.stateless[me]) {
+		send_initial_tokens(me);
+		if(vm_init_observer)
+			vm_init_observer(me, NULL);
+		return;
+	}
 	if(type == LP_INIT) {
 		struct vm_state *s = vm_env->xmalloc(sizeof(*s));
 		memset(s, 0, sizeof(*s));
@@ -355,18 +392,7 @@ void vm_process(lp_id_t me, simtime_t now, unsigned type, const void *pl, unsign
 		if(VM.target[me] == 0)
 			s->frozen = 1;
 		vm_env->set_state(s);
-		for(unsigned t = 0; t < VM.tokens; ++t) {
-			uint64_t h = mix64(mix64(VM.seed, me), 1000 + t);
-			unsigned char buf[VM_MAXPL];
-			unsigned psz = pick_payload(h >> 28, buf);
-			double ts = VM.init_ts0 ? 0.0 : pick_delay(h >> 20, true) + (VM.ts_mode == 1 ? 0.0 : (double)(h % 2));
-			unsigned dst = (t == 0 && (int)me != VM.sparse_lp) ? (unsigned)me : pick_dest(me, h);
-			unsigned ty = before_current(1.0, TOKEN_BASE + TOKEN_HOPS, NULL, 0, 1.0, TOKEN_BASE, NULL, 0) ? TOKEN_BASE + TOKEN_HOPS : TOKEN_BASE;
-			while(before_current(ts, ty, buf, psz, 0.0, LP_INIT, NULL, 0))
-				ts += 0.25;
-			REF.init_sends += vm_env->is_reference;
-			vm_env->schedule(dst, ts, ty, psz ? buf : NULL, psz);
-		}
+		send_initial_tokens(me);
 		if(vm_init_observer)
 			vm_init_observer(me, s);
 		return;
@@ -385,6 +411,24 @@ void vm_process(lp_id_t me, simtime_t now, unsigned type, const void *pl, unsign
 
 	uint64_t plh = vm_payload_hash(pl, size);
 	uint64_t evh = mix64(mix64(mix64(mix64(0xE7, dbits(now)), type), size), plh);
+	if(!s) {
+		/* stateless router: destination, delay and payload of the forwarded token come from the library generator alone */
+		uint64_t a = RandomU64();
+		double d = lib_delay();
+		double g = Normal();
+		uint64_t hr = mix64(mix64(a, dbits(g)), evh);
+		if(type >= TOKEN_BASE && type <= TOKEN_BASE + TOKEN_HOPS) {
+			unsigned char buf[VM_MAXPL];
+			unsigned psz = pick_payload(hr >> 28, buf);
+			unsigned first = before_current(1.0, TOKEN_BASE + TOKEN_HOPS, NULL, 0, 1.0, TOKEN_BASE, NULL, 0) ? TOKEN_BASE + TOKEN_HOPS : TOKEN_BASE;
+			vm_env->schedule(pick_dest(me, hr), now + d, first, psz ? buf : NULL, psz);
+		}
+		if(vm_observer) {
+			struct vm_call c = {.lp = (uint32_t)me, .type = type, .size = size, .now = now, .plh = plh};
+			vm_observer(&c, NULL);
+		}
+		return;
+	}
 	bool live = !s->frozen;
 	uint64_t h;
 	double ldelay = 0;
